@@ -556,5 +556,14 @@ def _build():
     return out
 
 
-FINDINGS = _build()
-FIXED = []
+FINDINGS = _build() + [
+    dict(id="C08-function-undocumented-code-default-header-newline", property="C08",
+         pattern=dict(check="fixpoint", fmt="function", field="header", observed="grew", type_annotations=False, typ_classes="none", default_kinds="code", doc_kinds="nodoc", round=2),
+         what="function format without annotations, a single undocumented parameter with a code-quoted default (its dotted type is dropped on round 1): the docstring header gains one "
+         "trailing newline on round 2 ('Summary line.' -> 'Summary line.\\n')",
+         site="cdd/docstring/emit.py:docstring (re-flow of the original docstring when no parameter line is emitted)",
+         example="{'alpha': {'typ': 'pkg.Kind', 'default': '```pkg.Kind.A```'}} through function(type_annotations=False, emit_as_kwonlyargs=True) four times"),
+]
+FIXED = [
+    "fixed: property=C08 64ad734 function format, interface with an undocumented parameter (or a return entry): round 2 appended the text 'None' to the docstring header / return description ('Summary line.None'), growing every round",
+]
